@@ -368,16 +368,18 @@ func rule155(r *core.Run) {
 		{"s3afero.SingleBucket", []string{"cmd.fakeS3Flags.directFsPath", "cmd.fakeS3Flags.directFsBucket"}},
 	} {
 		var call *ssa.Call
-		core.Instrs(fn, func(in ssa.Instruction) {
-			if c, ok := in.(*ssa.Call); ok && r.P.CalleeName(c) == x.ctor {
-				call = c
-			}
-		})
+		for _, cf := range r.P.FuncsOfPkg("cmd") {
+			core.Instrs(cf, func(in ssa.Instruction) {
+				if c, ok := in.(*ssa.Call); ok && r.P.CalleeName(c) == x.ctor {
+					call = c
+				}
+			})
+		}
 		if call == nil {
 			r.Violated("R15.5", key("cmd.run", x.ctor), r.P.Pos(fn.Pos()), "the command no longer constructs "+x.ctor)
 			continue
 		}
-		s := r.P.SliceOfMany(call.Call.Args, core.SliceOpts{Depth: -1})
+		s := r.P.SliceOfMany(call.Call.Args, core.SliceOpts{Depth: 3, BindParams: true})
 		ok := true
 		for _, f := range x.fields {
 			if !s.Has("field:" + f) {
@@ -388,19 +390,22 @@ func rule155(r *core.Run) {
 	}
 	// optional metadata paths
 	for ctor, f := range map[string]string{"s3afero.MultiWithMetaFs": "cmd.fakeS3Flags.fsMeta", "s3afero.SingleBucket": "cmd.fakeS3Flags.directFsMeta"} {
-		core.Instrs(fn, func(in ssa.Instruction) {
-			if c, ok := in.(*ssa.Call); ok && r.P.CalleeName(c) == ctor {
-				s := r.P.SliceOfMany(c.Call.Args, core.SliceOpts{Depth: -1})
-				r.Check(s.Has("field:"+f), "R15.5", key("cmd.run", ctor, "meta"), pos(r, c), "metadata filesystem from "+f, ctor+" does not receive the metadata path flag "+f)
-			}
-		})
+		for _, cf := range r.P.FuncsOfPkg("cmd") {
+			core.Instrs(cf, func(in ssa.Instruction) {
+				if c, ok := in.(*ssa.Call); ok && r.P.CalleeName(c) == ctor {
+					s := r.P.SliceOfMany(c.Call.Args, core.SliceOpts{Depth: 3, BindParams: true})
+					r.Check(s.Has("field:"+f), "R15.5", key("cmd.run", ctor, "meta"), pos(r, c), "metadata filesystem from "+f, ctor+" does not receive the metadata path flag "+f)
+				}
+			})
+		}
 	}
 	// the backend reaches gofakes3.New
 	ok := false
 	core.Instrs(fn, func(in ssa.Instruction) {
 		if c, isC := in.(*ssa.Call); isC && r.P.CalleeName(c) == "gofakes3.New" {
-			s := r.P.SliceOf(c.Call.Args[0], core.SliceOpts{Depth: -1})
-			if s.Has("call:s3bolt.NewFile") && s.Has("call:s3afero.MultiBucket") && s.Has("call:s3afero.SingleBucket") && s.Has("call:s3mem.New") {
+			s := r.P.SliceOf(c.Call.Args[0], core.SliceOpts{Depth: 3})
+			has := func(n string) bool { return s.Has("call:"+n) || s.Has("via:"+n) }
+			if has("s3bolt.NewFile") && has("s3afero.MultiBucket") && has("s3afero.SingleBucket") && has("s3mem.New") {
 				ok = true
 			}
 		}
@@ -561,87 +566,90 @@ func rule157(r *core.Run) {
 		detHash := s.Has("call:hash/fnv.New128a") || s.Has("call:hash/fnv.New64a") || s.Has("call:crypto/md5.New") || s.Has("call:crypto/sha256.New") || s.Has("call:crypto/md5.Sum") || s.Has("call:crypto/sha256.Sum256") || s.Has("call:crypto/sha1.New") || s.Has("call:hash/fnv.New128") || s.Has("call:hash/fnv.New64") || s.Has("call:hash/fnv.New32a")
 		r.Check(bad == "" && detHash, "R15.7", key(fname(r, mp), "record name is deterministic"), r.P.Pos(mp.Pos()), "name = f(bucket, key) with a fixed hash function", "the metadata record name depends on something other than (bucket, key) and a fixed hash function ("+bad+"): a new process over the same directories cannot find the records written by the previous one")
 	}
-	if run := mustFunc(r, "cmd.run"); run != nil {
+	if mustFunc(r, "cmd.run") != nil {
 		r.Rule("R15.9", "in the command, a metadata path flag that was given is always used: the FsPath call on it is guarded by nothing but its own presence test, the -backend selection and earlier error checks (a heuristic that sometimes ignores the flag leaves metadata in process memory)")
 		n := 0
-		core.Instrs(run, func(in ssa.Instruction) {
-			c, ok := in.(*ssa.Call)
-			if !ok || r.P.CalleeName(c) != "s3afero.FsPath" {
-				return
-			}
-			as := r.P.SliceOf(c.Call.Args[0], core.SliceOpts{Depth: -1})
-			var used []string
-			for _, l := range as.LeafList("field:cmd.fakeS3Flags.") {
-				used = append(used, l)
-			}
-			if len(used) != 1 {
-				return
-			}
-			n++
-			bad := ""
-			for _, g := range core.GuardsOf(c) {
-				// only presence tests of a string flag (flag ==/!= "") are considered
-				cd := core.CondOf(g.If.Cond)
-				if cd.Op != token.EQL && cd.Op != token.NEQ {
-					continue
+		for _, run := range r.P.FuncsOfPkg("cmd") {
+			run := run
+			core.Instrs(run, func(in ssa.Instruction) {
+				c, ok := in.(*ssa.Call)
+				if !ok || r.P.CalleeName(c) != "s3afero.FsPath" {
+					return
 				}
-				var fv ssa.Value
-				if k, ok := cd.Y.(*ssa.Const); ok && k.Value != nil && k.Value.Kind() == constant.String && constant.StringVal(k.Value) == "" {
-					fv = cd.X
-				} else if k, ok := cd.X.(*ssa.Const); ok && k.Value != nil && k.Value.Kind() == constant.String && constant.StringVal(k.Value) == "" {
-					fv = cd.Y
+				as := r.P.SliceOf(c.Call.Args[0], core.SliceOpts{Depth: -1})
+				var used []string
+				for _, l := range as.LeafList("field:cmd.fakeS3Flags.") {
+					used = append(used, l)
 				}
-				if fv == nil {
-					continue
+				if len(used) != 1 {
+					return
 				}
-				gs := r.P.SliceOf(fv, core.SliceOpts{Depth: -1})
-				for _, l := range gs.LeafList("field:cmd.fakeS3Flags.") {
-					if l != used[0] && (strings.HasSuffix(l, "Meta") || strings.HasSuffix(l, "Path") || strings.HasSuffix(l, "Db")) {
-						bad = l
+				n++
+				bad := ""
+				for _, g := range core.GuardsOf(c) {
+					// only presence tests of a string flag (flag ==/!= "") are considered
+					cd := core.CondOf(g.If.Cond)
+					if cd.Op != token.EQL && cd.Op != token.NEQ {
+						continue
+					}
+					var fv ssa.Value
+					if k, ok := cd.Y.(*ssa.Const); ok && k.Value != nil && k.Value.Kind() == constant.String && constant.StringVal(k.Value) == "" {
+						fv = cd.X
+					} else if k, ok := cd.X.(*ssa.Const); ok && k.Value != nil && k.Value.Kind() == constant.String && constant.StringVal(k.Value) == "" {
+						fv = cd.Y
+					}
+					if fv == nil {
+						continue
+					}
+					gs := r.P.SliceOf(fv, core.SliceOpts{Depth: -1})
+					for _, l := range gs.LeafList("field:cmd.fakeS3Flags.") {
+						if l != used[0] && (strings.HasSuffix(l, "Meta") || strings.HasSuffix(l, "Path") || strings.HasSuffix(l, "Db")) {
+							bad = l
+						}
 					}
 				}
-			}
-			r.Check(bad == "", "R15.7", key("cmd.run", "flag guarded by itself", strings.TrimPrefix(used[0], "field:cmd.fakeS3Flags.")), pos(r, c), "path flag used under a test of the same flag", "the path flag "+used[0]+" is used under a test of a different flag ("+bad+"): the option is silently ignored and the data does not go where it was configured")
-			// a metadata path that was given is honoured: assuming every presence test of the flag says
-			// "given", no backend constructor is reachable without having passed this FsPath call
-			if strings.HasSuffix(used[0], "Meta") {
-				assume := map[ssa.Value]bool{}
-				core.Instrs(run, func(x ssa.Instruction) {
-					b, ok := x.(*ssa.BinOp)
-					if !ok || (b.Op != token.EQL && b.Op != token.NEQ) || !isConstString(b.X, b.Y) {
-						return
+				r.Check(bad == "", "R15.7", key("cmd.run", "flag guarded by itself", strings.TrimPrefix(used[0], "field:cmd.fakeS3Flags.")), pos(r, c), "path flag used under a test of the same flag", "the path flag "+used[0]+" is used under a test of a different flag ("+bad+"): the option is silently ignored and the data does not go where it was configured")
+				// a metadata path that was given is honoured: assuming every presence test of the flag says
+				// "given", no backend constructor is reachable without having passed this FsPath call
+				if strings.HasSuffix(used[0], "Meta") {
+					assume := map[ssa.Value]bool{}
+					core.Instrs(run, func(x ssa.Instruction) {
+						b, ok := x.(*ssa.BinOp)
+						if !ok || (b.Op != token.EQL && b.Op != token.NEQ) || !isConstString(b.X, b.Y) {
+							return
+						}
+						k, _ := core.ConstString(b.Y)
+						other := b.X
+						if _, isK := b.X.(*ssa.Const); isK {
+							k, _ = core.ConstString(b.X)
+							other = b.Y
+						}
+						if k != "" || !r.P.SliceOf(other, core.SliceOpts{Depth: -1}).Has(used[0]) {
+							return
+						}
+						assume[b] = b.Op == token.NEQ
+					})
+					ctor := "s3afero.MultiBucket"
+					if strings.Contains(used[0], "direct") {
+						ctor = "s3afero.SingleBucket"
 					}
-					k, _ := core.ConstString(b.Y)
-					other := b.X
-					if _, isK := b.X.(*ssa.Const); isK {
-						k, _ = core.ConstString(b.X)
-						other = b.Y
-					}
-					if k != "" || !r.P.SliceOf(other, core.SliceOpts{Depth: -1}).Has(used[0]) {
-						return
-					}
-					assume[b] = b.Op == token.NEQ
-				})
-				ctor := "s3afero.MultiBucket"
-				if strings.Contains(used[0], "direct") {
-					ctor = "s3afero.SingleBucket"
+					skipped := ""
+					core.Instrs(run, func(x ssa.Instruction) {
+						cc, ok := x.(*ssa.Call)
+						if !ok || r.P.CalleeName(cc) != ctor {
+							return
+						}
+						if core.ReachableFromEntryAssumingAvoiding(cc, assume, func(y ssa.Instruction) bool { return y == ssa.Instruction(c) }) {
+							skipped = pos(r, cc)
+						}
+					})
+					r.Check(skipped == "" && len(assume) > 0, "R15.9", key("cmd.run", "metadata path honoured whenever given", strings.TrimPrefix(used[0], "field:cmd.fakeS3Flags.")), pos(r, c), sprintf("with the flag given, %s is reached only through FsPath(flag)", ctor),
+						"with "+used[0]+" given, the backend can still be constructed (at "+skipped+") without the metadata filesystem having been opened from it: under some further condition the flag is ignored, metadata stays in process memory and is gone after a restart")
 				}
-				skipped := ""
-				core.Instrs(run, func(x ssa.Instruction) {
-					cc, ok := x.(*ssa.Call)
-					if !ok || r.P.CalleeName(cc) != ctor {
-						return
-					}
-					if core.ReachableFromEntryAssumingAvoiding(cc, assume, func(y ssa.Instruction) bool { return y == ssa.Instruction(c) }) {
-						skipped = pos(r, cc)
-					}
-				})
-				r.Check(skipped == "" && len(assume) > 0, "R15.9", key("cmd.run", "metadata path honoured whenever given", strings.TrimPrefix(used[0], "field:cmd.fakeS3Flags.")), pos(r, c), sprintf("with the flag given, %s is reached only through FsPath(flag)", ctor),
-					"with "+used[0]+" given, the backend can still be constructed (at "+skipped+") without the metadata filesystem having been opened from it: under some further condition the flag is ignored, metadata stays in process memory and is gone after a restart")
-			}
-		})
+			})
+		}
 		if n < 4 {
-			r.Unresolved("R15.7: %d FsPath(flag) calls in cmd.run (expected 4)", n)
+			r.Unresolved("R15.7: %d FsPath(flag) calls in the command (expected 4)", n)
 		}
 	}
 }
